@@ -110,8 +110,61 @@ def _canonical(tree: ast.AST) -> ast.AST:
                 if kept:
                     setattr(node, fld, kept)
     _inline_return_temporaries(tree)
+    _inline_pure_flags(tree)
     tree = T().visit(tree)  # the inlined tests get their canonical polarity too
     return ast.fix_missing_locations(tree)
+
+
+def _inline_pure_flags(tree: ast.AST) -> None:
+    """`flag = <comparison / and / or / not over stable names, no call>` bound once: every test that reads `flag`
+    reads the expression instead (`has_iff = IFF in ops or IMPLIES in ops; if NOT in ops or has_iff:` is the test
+    `NOT in ops or IFF in ops or IMPLIES in ops`). The assignment itself stays."""
+    import copy
+
+    impure = (ast.Call, ast.Await, ast.Yield, ast.YieldFrom, ast.Lambda, ast.ListComp, ast.SetComp, ast.DictComp, ast.GeneratorExp, ast.NamedExpr, ast.Starred, ast.Subscript)
+    for fn in ast.walk(tree):
+        if not isinstance(fn, (ast.FunctionDef, ast.AsyncFunctionDef)):
+            continue
+        stores: Dict[str, int] = {}
+        for n in ast.walk(fn):
+            if isinstance(n, ast.Name) and isinstance(n.ctx, (ast.Store, ast.Del)):
+                stores[n.id] = stores.get(n.id, 0) + 1
+            elif isinstance(n, (ast.Global, ast.Nonlocal)):
+                for nm in n.names:
+                    stores[nm] = stores.get(nm, 0) + 2
+            elif isinstance(n, (ast.FunctionDef, ast.AsyncFunctionDef, ast.ClassDef)) and n is not fn:
+                stores[n.name] = stores.get(n.name, 0) + 2
+        params = {a.arg for a in fn.args.args + fn.args.kwonlyargs + fn.args.posonlyargs}
+        if fn.args.vararg:
+            params.add(fn.args.vararg.arg)
+        if fn.args.kwarg:
+            params.add(fn.args.kwarg.arg)
+        flags: Dict[str, ast.AST] = {}
+        for st in ast.walk(fn):
+            if not (isinstance(st, ast.Assign) and len(st.targets) == 1 and isinstance(st.targets[0], ast.Name)):
+                continue
+            x, e = st.targets[0].id, st.value
+            if x in params or stores.get(x, 0) != 1 or not isinstance(e, (ast.BoolOp, ast.Compare)) and not (isinstance(e, ast.UnaryOp) and isinstance(e.op, ast.Not)):
+                continue
+            if any(isinstance(y, impure) for y in ast.walk(e)):
+                continue
+            names = {y.id for y in ast.walk(e) if isinstance(y, ast.Name)}
+            if not all((nm in params and stores.get(nm, 0) == 0) or stores.get(nm, 0) == 1 or nm not in stores for nm in names):
+                continue
+            flags[x] = e
+        if not flags:
+            continue
+
+        class R(ast.NodeTransformer):
+            def visit_Name(self, node):
+                if isinstance(node.ctx, ast.Load) and node.id in flags:
+                    return ast.copy_location(copy.deepcopy(flags[node.id]), node)
+                return node
+
+        r = R()
+        for n in ast.walk(fn):
+            if isinstance(n, (ast.If, ast.While, ast.IfExp, ast.Assert)):
+                n.test = r.visit(n.test)
 
 
 def _inline_return_temporaries(tree: ast.AST) -> None:
